@@ -26,6 +26,8 @@ CVC5 = "/usr/bin/cvc5"
 class Contract:
     """Base class of sidecar contracts.  Subclasses set prop/file/func/name and override inputs/ensures."""
 
+    np_floats = False  # inputs are numpy float64 (as read by pandas): x/0 is nan/inf, not ZeroDivisionError
+
     prop = None
     file = None
     func = None
@@ -64,8 +66,8 @@ class Contract:
             out = []
             for c in a["calls"]:
                 fn = I.load_function(c.get("file", self.file), c["func"])
-                out.append(I.call(fn, [sp.unwrap(x) for x in c.get("args", [])],
-                                  {k: sp.unwrap(v) for k, v in c.get("kwargs", {}).items()}))
+                args = [x.resolve(out, I) if isinstance(x, Ref) else sp.unwrap(x) for x in c.get("args", [])]
+                out.append(I.call(fn, args, {k: sp.unwrap(v) for k, v in c.get("kwargs", {}).items()}))
             return out
         fn = I.load_function(self.file, self.func)
         return I.call(fn, [sp.unwrap(x) for x in a.get("args", [])], {k: sp.unwrap(v) for k, v in a.get("kwargs", {}).items()})
@@ -73,6 +75,25 @@ class Contract:
     @property
     def label(self):
         return f"{self.prop}/{os.path.basename(self.file)}::{self.func}[{self.name}]"
+
+
+class Ref:
+    """Argument of a chained call: the result of an earlier call of the same contract (then a path of
+    tuple indices / attribute names / dict keys into it)."""
+
+    def __init__(self, k, *path):
+        self.k, self.path = k, path
+
+    def resolve(self, results, I):
+        v = results[self.k]
+        for p in self.path:
+            if isinstance(p, int) or not isinstance(p, str):
+                v = I.get_item(v, p)
+            elif p.startswith("."):
+                v = I.get_attr(v, p[1:])
+            else:
+                v = I.get_item(v, p)
+        return v
 
 
 class Obl:
@@ -177,6 +198,10 @@ def run_path(contract, I, decisions, model=None):
     a = contract.inputs(S)
     contract.setup(I, S, a)
     pre = None
+    ctx.np_floats = bool(contract.np_floats)
+    ops.NP_FLOATS[0] = ctx.np_floats
+    if getattr(contract, "merge", False):
+        ctx.merge_mode += 1  # simple conditionals are merged (ite) instead of forking the path
     try:
         res = contract.call(I, S, a)
         outcome = "return"
@@ -237,15 +262,17 @@ def explore(contract, I, stats):
         for o in obls:
             if o.path_id == pid and o.kind == "inline":
                 o.hyps = o.hyps + inst + pow_ax
-        for cname, f in clauses.items():
-            g = sp.formula_of(f)
-            if g is sp.BORDER:
-                raise EngineError("BORDER in symbolic mode")
-            if isinstance(g, bool):
-                g = z3.BoolVal(g)
-            o = Obl(f"{contract.label}/{cname}", hyps, g, outcome, pid, contract)
-            o.decisions = list(ctx.decisions)
-            obls.append(o)
+        for cname, fs in clauses.items():
+            # a clause given as a list is discharged conjunct by conjunct (keeps non-linear queries small)
+            for f in (fs if isinstance(fs, list) else [fs]):
+                g = sp.formula_of(f)
+                if g is sp.BORDER:
+                    raise EngineError("BORDER in symbolic mode")
+                if isinstance(g, bool):
+                    g = z3.BoolVal(g)
+                o = Obl(f"{contract.label}/{cname}", hyps, g, outcome, pid, contract)
+                o.decisions = list(ctx.decisions)
+                obls.append(o)
         # cover: the path is reachable under the precondition (guards against vacuous contracts)
         cov = Obl(f"{contract.label}/cover", hyps, None, "cover", pid, contract)
         cov.outcome = outcome
@@ -442,11 +469,19 @@ def model_by_concretisation(hyps, neg_goal, tries=40, seed=0):
 def robust_models(s, goal):
     """Extra counter-models violating the goal by a relative margin (tried first by the replay)."""
     models = []
+    budget = 6
     for rel in (z3.RealVal("0.05"), z3.RealVal("0.000001")):
-        for mc in _margin_constraints(goal, rel):
+        mcs = _margin_constraints(goal, rel)
+        if len(mcs) > 3:
+            # one query for "some conjunct is violated by a clear margin"
+            mcs = [z3.Or(mcs)]
+        for mc in mcs:
+            if budget <= 0:
+                break
+            budget -= 1
             s.push()
             s.add(mc)
-            s.set("timeout", 5000)
+            s.set("timeout", 3000)
             if s.check() == z3.sat:
                 models.append(s.model())
             s.pop()
@@ -462,6 +497,8 @@ def robust_models(s, goal):
 
 
 def enc(v, memo):
+    if isinstance(v, Ref):
+        return {"t": "result", "k": v.k, "path": list(v.path)}
     v = sp.unwrap(v)
     if v is None:
         return {"t": "none"}
@@ -683,6 +720,7 @@ def _native_replay_one(contract, I, o, model, repo):
                 "class_state": [[f, c, at, enc(v, memo)] for (f, c, at, v) in
                                 list(contract.class_state(S, a)) + _class_objects(I)],
             }
+            req["np_floats"] = bool(contract.np_floats)
             if "calls" in a:
                 req["calls"] = [{"file": c.get("file", contract.file), "func": c["func"],
                                  "args": [enc(x, memo) for x in c.get("args", [])],
@@ -707,7 +745,8 @@ def _native_replay_one(contract, I, o, model, repo):
             if "calls" in a:
                 for c, pc_ in zip(a["calls"], resp.get("calls_post", [])):
                     for pre, post in zip(c.get("args", []), [dec(x, dmemo, I) for x in pc_]):
-                        sync(sp.unwrap(pre), post)
+                        if not isinstance(pre, Ref):
+                            sync(sp.unwrap(pre), post)
             for pre, post in zip(a.get("args", []), post_args):
                 sync(sp.unwrap(pre), post)
             for k, post in post_kwargs.items():
@@ -723,7 +762,7 @@ def _native_replay_one(contract, I, o, model, repo):
             # an exception clause is keyed by exception class: any exception clause counts
             vals = {}
             for k, f in clauses.items():
-                vals[k] = sp.formula_of(f)
+                vals[k] = sp.formula_of(sp.And(*f) if isinstance(f, list) else f)
             info["native_clauses"] = {k: repr(v) for k, v in vals.items()}
             if cname in vals:
                 v = vals[cname]
